@@ -879,9 +879,69 @@ Qed.
 Lemma runner_hands_over_reported_result_proof : forall ref r, handed_to_assert ref r = r.
 Proof. reflexivity. Qed.
 
+Lemma runner_hands_over_definition_proof : forall ref d, def_handed_to_assert ref d = d.
+Proof. reflexivity. Qed.
+
+Lemma run_errs_is_assert : forall ref d e a, run_errs ref d e a = assert_errs d e a.
+Proof. reflexivity. Qed.
+
 Lemma run_verdict_iff_proof : forall ref d e a, run_errs ref d e a = [] <-> agree d e a.
-Proof. intros. unfold run_errs. rewrite runner_hands_over_reported_result_proof. apply assert_iff_proof. Qed.
+Proof. intros. rewrite run_errs_is_assert. apply assert_iff_proof. Qed.
 
 Lemma run_dev_status_proof : forall ref d e a x y,
   r_status e = Some x -> r_status a = Some y -> x <> y -> In EStatus (run_errs ref d e a).
-Proof. intros. unfold run_errs. rewrite runner_hands_over_reported_result_proof. eapply dev_status_proof; eauto. Qed.
+Proof. intros. rewrite run_errs_is_assert. eapply dev_status_proof; eauto. Qed.
+
+(* the alternative allowed codes of the library's definition count through the runner ... *)
+Lemma run_len_other_code_proof : forall ref d e a ea c,
+  run_errs ref d e a = [] -> r_error a = Some ea -> In c (d_other_codes d) ->
+  run_errs ref d e (with_error (Some (mkE c (e_msg ea) (e_details ea))) a) = [].
+Proof. intros ref d e a ea c. rewrite !run_errs_is_assert. apply len_other_code_proof. Qed.
+
+(* ... and no other code does *)
+Lemma run_dev_code_proof : forall ref d e a ee ea,
+  r_error e = Some ee -> r_error a = Some ea ->
+  e_code ea <> e_code ee -> ~ In (e_code ea) (d_other_codes d) ->
+  In ECode (run_errs ref d e a).
+Proof. intros ref d e a ee ea. rewrite run_errs_is_assert. apply dev_code_proof. Qed.
+
+(* the merged form of the metadata passes through the runner only where the stream
+   type of the library's definition allows it *)
+Lemma run_no_merge_elsewhere_proof : forall ref d e a,
+  ~ may_merge d e -> run_errs ref d e a = [] ->
+  included (r_headers e) (r_headers a) /\ included (r_trailers e) (r_trailers a).
+Proof.
+  intros ref d e a Hn H. rewrite run_errs_is_assert in H. unfold assert_errs in H.
+  apply app_eq_nil in H. destruct H as (_ & H).
+  apply app_eq_nil in H. destruct H as (_ & H).
+  apply app_eq_nil in H. destruct H as (H & _).
+  apply (no_merge_elsewhere_proof d e a Hn). exact H.
+Qed.
+
+(* the code probes read the set of accepted codes back: for an expectation that agrees
+   with itself, the probe with code c passes iff c is the primary code or an alternative *)
+Lemma probe_code_self : forall e ee, r_error e = Some ee -> probe_code e (e_code ee) = e.
+Proof. intros [h t p er s u] [c m ds] H. simpl in H. subst er. reflexivity. Qed.
+
+Lemma probe_code_with_error : forall e ee c, r_error e = Some ee ->
+  probe_code e c = with_error (Some (mkE c (e_msg ee) (e_details ee))) e.
+Proof. intros [h t p er s u] ee c H. simpl in H. subst er. reflexivity. Qed.
+
+Lemma probe_code_allowed_proof : forall ref d e ee c,
+  r_error e = Some ee -> run_errs ref d e e = [] ->
+  c = e_code ee \/ In c (d_other_codes d) ->
+  run_errs ref d e (probe_code e c) = [].
+Proof.
+  intros ref d e ee c He Hs [Hc|Hc].
+  - subst c. rewrite (probe_code_self e ee He). exact Hs.
+  - rewrite (probe_code_with_error e ee c He). eapply run_len_other_code_proof; eauto.
+Qed.
+
+Lemma probe_code_flagged_proof : forall ref d e ee c,
+  r_error e = Some ee -> c <> e_code ee -> ~ In c (d_other_codes d) ->
+  In ECode (run_errs ref d e (probe_code e c)).
+Proof.
+  intros ref d e ee c He Hc Ho.
+  apply (run_dev_code_proof ref d e (probe_code e c) ee (mkE c (e_msg ee) (e_details ee))); auto.
+  rewrite (probe_code_with_error e ee c He). reflexivity.
+Qed.
